@@ -384,6 +384,9 @@ func NewModels(w *World) *Models {
 	m.Ent.setSigners(k.signersString(w.Actors))
 	if g := k.GenesisOrder; g != nil {
 		o := &Order{Id: k.StartPO, Purchaser: AddrOf(w.Actors, g.Purchaser).String(), Amount: mustInt(g.Amount).BigInt(), Denom: k.Ent.Denom, Status: g.Status, RaiseTime: uint64(GenesisTS) - 10}
+		if g.NoRaiseTime {
+			o.RaiseTime = 0
+		}
 		if g.Status == 2 {
 			o.Decisions = []Decision{{w.Actors[k.Ent.Signers[0]].Bech(), 2, uint64(GenesisTS) - 5}}
 			o.CompletionTime = 0
